@@ -260,7 +260,9 @@ Step(st, o) ==
 \* calls: the storage life-cycle calls seen during the operation, in order ([n, ev, x])
 CallsOK(r, calls) ==
     /\ \A i \in 1..Len(calls) : calls[i] \in r.may
-    /\ \A i, j \in 1..Len(calls) : i # j => NE(calls[i].n, calls[i].ev) # NE(calls[j].n, calls[j].ev)
+    \* every call at most once per storage (a factory that fails is asked again by every use)
+    /\ \A i, j \in 1..Len(calls) : (i # j /\ calls[i] # C(calls[i].n, "start", "nostart"))
+                                        => NE(calls[i].n, calls[i].ev) # NE(calls[j].n, calls[j].ev)
     /\ r.must \subseteq {NE(calls[i].n, calls[i].ev) : i \in 1..Len(calls)}
     /\ (r.one # {} => r.one \cap {NE(calls[i].n, calls[i].ev) : i \in 1..Len(calls)} # {})
 ErrOK(want, got) == /\ got \in {"ok", "shutdown", "boom", "diag", "err"}
